@@ -14,7 +14,8 @@
        `_partial` / `_residual` proved.  The non-B, pk_h-key and Tr::new-leaf classes were
        repaired in /repo (a8ead875, bd3f29d9, 6b65f152) and are now positive statements.                                            *)
 From Verif Require Import ValidateModel ValidateSpec ValidateProofs ValidateAccept ValidateSwitch
-  ValidateExact ValidateEntry.
+  ValidateExact ValidateEntry ValidateCtorModel ValidateCtorProofs.
+From Coq Require Import List.
 Local Open Scope N_scope.
 
 (* ---- lattice --------------------------------------------------------------------------- *)
@@ -201,6 +202,45 @@ Theorem C12_threshold_from_iter : forall M k h n : N,
   (h <= n -> (threshold_from_iter M k h n = true <-> 1 <= k /\ k <= n /\ (M = 0 \/ n <= M))).
 Proof. exact (fun M k h n => conj (threshold_from_iter_sound M k h n) (threshold_from_iter_exact M k h n)). Qed.
 Print Assumptions C12_threshold_from_iter.
+
+(* ---- programmatic constructors (Ms/ValidateCtorModel.v) ----------------------------------- *)
+(* Wsh::new_sortedmulti / Sh::new_wsh_sortedmulti (c = CSegwitv0), Sh::new_sortedmulti (c = CLegacy) and
+   the Descriptor::new_*_sortedmulti shorthands, AS REPAIRED (from_ast + Self::new): on the one-node
+   expression a Threshold of keys denotes they are the parsing wrapper, so "returns Ok" yields the
+   same predicate as for parsed wsh()/sh() descriptors (C12_accepted_ok_wrappers_partial). *)
+Theorem C12_ctor_sortedmulti_accepted_ok : forall (c : ctx) (x : expr), leaf_expr x ->
+  new_sortedmulti c x = wrapper_from_tree c x /\
+  (new_sortedmulti c x = EOk ->
+   obeys_parse c x /\ s_base (x_sum x) = BB /\
+   (forall k, In k (all_keys (s_nodes (x_sum x))) -> key_legal c k) /\
+   ~ multipath_mismatch (all_keys (s_nodes (x_sum x))) /\
+   (c = CBare -> bare_shape (x_sum x))).
+Proof. exact (fun c x L => conj (new_sortedmulti_is_wrapper c x L) (new_sortedmulti_accepted_ok c x L)). Qed.
+Print Assumptions C12_ctor_sortedmulti_accepted_ok.
+
+(* Pkh::new, Wpkh::new / Sh::new_wpkh, Tr::new(key, None): Ok exactly for the keys the context permits *)
+Theorem C12_ctor_key_exact : forall (k : keyinfo),
+  (pkh_new k = EOk <-> key_legal CLegacy k) /\ (wpkh_new k = EOk <-> key_legal CSegwitv0 k) /\
+  (tr_new_key k = EOk <-> key_legal CTap k).
+Proof. exact (fun k => conj (key_ctor_exact CBare k) (conj (key_ctor_exact CSegwitv0 k) (key_ctor_exact CTap k))). Qed.
+Print Assumptions C12_ctor_key_exact.
+
+(* REGRESSION DOCUMENTATION, about the PRE-FIX code (new_sortedmulti = Ok(Self { ms: Miniscript::sortedmulti(thresh) }),
+   no check at all): it accepted wsh(sortedmulti(1,Ku,Kc)) with an uncompressed key and sh(sortedmulti(1,K1..K16))
+   with a 547-byte redeem script; the repaired constructors refuse both with the classes of the text path. *)
+Example C12_ctor_sortedmulti_prefix_refuted :
+  (leaf_expr x_sm_unc /\ new_sortedmulti_prefix CSegwitv0 x_sm_unc = EOk /\
+   ~ (forall k, In k (all_keys (s_nodes (x_sum x_sm_unc))) -> key_legal CSegwitv0 k) /\
+   new_sortedmulti CSegwitv0 x_sm_unc = EErr (EpParse (PCtx CeUncompressed))) /\
+  (leaf_expr x_sm_16 /\ new_sortedmulti_prefix CLegacy x_sm_16 = EOk /\
+   ~ obeys_parse CLegacy x_sm_16 /\
+   new_sortedmulti CLegacy x_sm_16 = EErr (EpParse (PCtx CeScriptSize))).
+Proof. exact new_sortedmulti_prefix_refuted. Qed.
+
+Example C12_ctor_nonvacuous :
+  leaf_expr x_sm_ok /\ new_sortedmulti CSegwitv0 x_sm_ok = EOk /\ new_sortedmulti CLegacy x_sm_ok = EOk /\
+  pkh_new (key_cn 1) = EOk /\ wpkh_new key_u1 = EErr (EpParse (PCtx CeUncompressed)).
+Proof. exact ctor_nonvacuous. Qed.
 
 (* ---- non-vacuity ------------------------------------------------------------------------ *)
 Example C12_nonvacuous_entry_points :
